@@ -184,21 +184,28 @@ func peerNamespaces(peer netv1.NetworkPolicyPeer, self string, all []nsInfo) ([]
 
 // evalNetPol checks the policies of lease namespace self against the pods (pod templates) found in
 // it.  allowed(service) = numeric ports the tenant exposed globally for that service.
-func evalNetPol(self string, pols []*netv1.NetworkPolicy, pods []pod, all []nsInfo, allowed func(service string) map[portKey]bool) []netFinding {
-	var out []netFinding
+//
+// allowed(service) returns the container ports of the service's global exposes and the external
+// ("as") ports of those exposes.  A NetworkPolicy port is matched against the pod (container) port, so
+// strictly only the former are "ports the tenant exposed globally"; the property text does not say
+// which number is meant, hence a policy port that equals the external port of a global expose is
+// accepted (and counted in extOnly) unless strict is set.
+func evalNetPol(self string, pols []*netv1.NetworkPolicy, pods []pod, all []nsInfo, strict bool,
+	allowed func(service string) (container, external map[portKey]bool)) (out []netFinding, extOnly int) {
 	add := func(class, format string, a ...interface{}) {
 		out = append(out, netFinding{class, fmt.Sprintf(format, a...)})
 	}
-	if len(pods) > 0 {
-		def := false
-		for _, p := range pols {
-			if emptySelector(p.Spec.PodSelector) && hasType(p, netv1.PolicyTypeIngress) && hasType(p, netv1.PolicyTypeEgress) {
-				def = true
-			}
+	// default deny: policies selecting every pod of the namespace for ingress and for egress
+	defIn, defEg := false, false
+	for _, p := range pols {
+		if emptySelector(p.Spec.PodSelector) {
+			defIn = defIn || hasType(p, netv1.PolicyTypeIngress)
+			defEg = defEg || hasType(p, netv1.PolicyTypeEgress)
 		}
-		if !def {
-			add("netpol-no-default-deny", "namespace %s runs pods but has no policy selecting all pods for ingress and egress", self)
-		}
+	}
+	if len(pods) > 0 && !(defIn && defEg) {
+		add("netpol-no-default-deny", "namespace %s runs pods of %d deployment(s) but has no policy selecting all pods for ingress=%v egress=%v: everything is admitted (policies present: %d)",
+			self, len(pods), defIn, defEg, len(pols))
 	}
 	for _, pd := range pods {
 		inIso, egIso := false, false
@@ -245,11 +252,18 @@ func evalNetPol(self string, pols []*netv1.NetworkPolicy, pods []pod, all []nsIn
 						add("netpol-ingress-from-outside", "policy %s/%s ingress rule %d admits %v to pods of service %s on all/named ports", self, p.Name, ri, outside, pd.service)
 						continue
 					}
-					al := allowed(pd.service)
+					al, ext := allowed(pd.service)
 					for _, pk := range ports {
-						if !al[pk] {
-							add("netpol-ingress-port-not-global", "policy %s/%s ingress rule %d admits %v to pods of service %s on port %v which the manifest does not expose globally (global ports: %v)",
+						switch {
+						case al[pk]:
+						case ext[pk] && !strict:
+							extOnly++
+						case ext[pk]:
+							add("netpol-ingress-port-is-external-port", "policy %s/%s ingress rule %d admits %v to pods of service %s on pod port %v, which is the external port of a global expose but not its container port (globally exposed container ports: %v)",
 								self, p.Name, ri, outside, pd.service, pk, sortedPorts(al))
+						default:
+							add("netpol-ingress-port-not-global", "policy %s/%s ingress rule %d admits %v to pods of service %s on port %v which the manifest does not expose globally (global ports: container %v external %v)",
+								self, p.Name, ri, outside, pd.service, pk, sortedPorts(al), sortedPorts(ext))
 						}
 					}
 				}
@@ -294,14 +308,14 @@ func evalNetPol(self string, pols []*netv1.NetworkPolicy, pods []pod, all []nsIn
 				}
 			}
 		}
-		if !inIso {
+		if !inIso && defIn {
 			add("netpol-pod-not-isolated", "pods of %s/%s are selected by no ingress policy: all ingress admitted", self, pd.owner)
 		}
-		if !egIso {
+		if !egIso && defEg {
 			add("netpol-pod-not-isolated", "pods of %s/%s are selected by no egress policy: all egress admitted", self, pd.owner)
 		}
 	}
-	return out
+	return out, extOnly
 }
 
 func sortedPorts(m map[portKey]bool) []string {
